@@ -37,7 +37,7 @@ TRUSTED = ["click / CliRunner", "os.path", "dulwich (reading the git repository)
 
 KINDS = ["file", "dir", "linkFile", "linkDir", "stdin", "url", "gitRepo"]
 TYPES = ["auto", "content", "directory", "origin", "snapshot"]
-VERIFY = ["absent", "matching", "nonMatching"]
+VERIFY = ["absent", "matching", "nonMatching", "malformed"]
 
 
 # URL spellings, several of which parsing and re-composing would not give back unchanged: the
@@ -70,7 +70,7 @@ def generate(ctx):
                 for c in cfgs:
                     if c["kind"] == "url" and not c["recursive"] and not c["exclude"] and c["deref"]:
                         cases.append(dict(c, fixture=seed, url=ui))
-    ctx.exhaustive_parts.append("all 1680 configurations of the identify command")
+    ctx.exhaustive_parts.append("all 2240 configurations of the identify command")
     return cases
 
 
@@ -355,6 +355,10 @@ def check_cases(ctx, cases):
             verify_arg = want_swhid or "swh:1:cnt:" + "0" * 40
         elif case["verify"] == "nonMatching":
             verify_arg = "swh:1:cnt:" + "1" * 40 if (want_swhid or "").endswith("0") else "swh:1:cnt:" + "0" * 40
+        elif case["verify"] == "malformed":
+            # not a core SWHID: wrong scheme version, upper-case hex, an extended type, qualifiers, a short id
+            bad = ["swh:2:cnt:" + "0" * 40, "swh:1:cnt:" + "A" * 40, "swh:1:ori:" + "0" * 40, "swh:1:cnt:" + "0" * 40 + ";lines=1", "swh:1:cnt:" + "0" * 39, "cnt", ""]
+            verify_arg = bad[(case["fixture"] + len(canon_key(case))) % len(bad)]
         res_cli = invoke(fx, case, args, obj, verify_arg)
         cls = classify(res_cli)
         out = os.fsdecode(res_cli.stdout_bytes)
@@ -442,6 +446,10 @@ def type_of(d):
     return {"contentOfFile": "content", "contentOfLinkText": "content", "contentOfStdin": "content", "directory": "directory", "origin": "origin", "snapshot": "snapshot"}[d]
 
 
+def canon_key(c):
+    return "".join(str(c[k]) for k in ("kind", "type", "deref", "filename", "recursive", "exclude"))
+
+
 def local_in_scope(c):
     if c["kind"] == "url" and c["verify"] == "matching":
         return False  # --verify only takes core SWHIDs: an origin's can never be given
@@ -451,6 +459,8 @@ def local_in_scope(c):
 def local_expected(c):
     d = local_designated(c)
     isdir = c["kind"] in ("dir", "linkDir", "gitRepo")
+    if c["verify"] == "malformed":
+        return ("usageError",)  # --verify takes a core SWHID
     if c["recursive"] and isdir:
         if c["verify"] != "absent":
             return ("usageError",)
